@@ -29,6 +29,22 @@ ALLOWED_AXIOMS = set()  # target: none.  Anything printed by Print Assumptions t
 COQ_TIMEOUT = int(os.environ.get('VERIF_COQ_TIMEOUT', '900'))
 
 
+class InputModified(Exception):
+    """the library modified an array argument that is input only"""
+
+
+def call_guarded(fn, *args, **kwargs):
+    """fn(*args, **kwargs); raises InputModified if an ndarray argument differs afterwards"""
+    import numpy as _np
+    snap = [(('arg %d' % i), a, a.copy()) for i, a in enumerate(args) if isinstance(a, _np.ndarray)] + \
+           [(k, a, a.copy()) for k, a in kwargs.items() if isinstance(a, _np.ndarray)]
+    r = fn(*args, **kwargs)
+    for nm, now, before in snap:
+        if not _np.array_equal(now, before, equal_nan=True):
+            raise InputModified('%s modified its input `%s` in place' % (getattr(fn, '__name__', 'call'), nm))
+    return r
+
+
 class Broken(Exception):
     """infrastructure failure of the check itself (exit 2)"""
 
